@@ -194,9 +194,11 @@ class Injector:
                     if nt:
                         yield ('recursive type', 'RECURSIVE_TYPE', self.site_kind(o), o, nt)
 
-        def if_sites(kind):
+        def if_sites(kind, single=False):
             for o in conts:
                 for st in ifs(o['members']):
+                    if single and (len(st['branches']) != 1 or len(st['branches'][0][0]) != 1 or st['els'] is not None):
+                        continue      # mixing operators inside one statement is a different error
                     var, op, en = st['branches'][0][0][0]
                     dk = None
                     for ctx, m in decls(o['members']):
@@ -213,7 +215,7 @@ class Injector:
                     yield ('missing enumerator', 'MISSING_ENUMERATOR', self.site_kind(o, 'if'), o, nt)
 
         def enum_and():
-            for o, var, op, en in if_sites('enum'):
+            for o, var, op, en in if_sites('enum', single=True):
                 if op != '==':
                     continue
                 nt = self.mutate_block(o, lambda b: sub_in(b, r'\(\s*%s\s*==\s*%s\b' % (var, en), '(%s & %s' % (var, en)))
@@ -221,7 +223,7 @@ class Injector:
                     yield ("'&' on an enum", 'ENUM_HAS_BITWISE_AND', self.site_kind(o, 'if'), o, nt)
 
         def flag_eq():
-            for o, var, op, en in if_sites('flag'):
+            for o, var, op, en in if_sites('flag', single=True):
                 nt = self.mutate_block(o, lambda b: sub_in(b, r'\(\s*%s\s*&\s*%s\b' % (var, en), '(%s == %s' % (var, en)))
                 if nt:
                     yield ("'==' on a flag", 'FLAG_HAS_EQUALS', self.site_kind(o, 'if'), o, nt)
@@ -318,7 +320,9 @@ class Injector:
                     continue
                 ds = decls(o['members'])
                 tops = [m for ctx, m in ds if ctx == 'top']
-                if len(tops) >= 2 and tops[-1]['ty'] in ('u8', 'u16', 'u32') and tops[-1]['val'] is None and tops[-1]['arr'] is None and not any(m['val'] == 'self.size' for _, m in ds):
+                last_is_decl = o['members'] and o['members'][-1]['k'] == 'decl'
+                variable_before = any(m['k'] in ('if', 'optional') or (m['k'] == 'decl' and (m['ty'] in ('CString', 'String', 'SizedCString', 'PackedGuid') or (m['arr'] is not None and not re.fullmatch(r'\d+', m['arr'])))) for m in o['members'][:-1])
+                if last_is_decl and variable_before and len(tops) >= 2 and tops[-1] is o['members'][-1] and tops[-1]['ty'] in ('u8', 'u16', 'u32') and tops[-1]['val'] is None and tops[-1]['arr'] is None and not any(m['val'] == 'self.size' for _, m in ds):
                     m = tops[-1]
                     used = any(x['arr'] == m['name'] for _, x in ds)
                     if used:
